@@ -44,6 +44,8 @@ class Result:
         self.labels = []
         self.sample = None      # optional extra shown in evidence samples
         self.inconclusive = None
+        self.executions = 1     # runs of the code under test made for this case
+        self.replay_case = None  # what to store as the replay when it is not the case itself
 
     def fail(self, sig, msg, detail=None):
         self.violations.append(Violation(sig, msg, detail))
@@ -53,6 +55,10 @@ class Result:
 
 
 class CaseFailed(Exception):
+    pass
+
+
+class ShrinkTimeout(BaseException):
     pass
 
 
@@ -84,6 +90,7 @@ def sig_matches(sig, known_sigs):
 class Stats:
     def __init__(self):
         self.evaluations = 0
+        self.executions = 0
         self.labels = Counter()
         self.nontrivial = set()
         self.samples = []
@@ -92,6 +99,7 @@ class Stats:
 
     def add(self, case, res, known_sigs):
         self.evaluations += 1
+        self.executions += res.executions
         for lab in res.labels:
             self.labels[lab] += 1
         if res.inconclusive:
@@ -112,6 +120,7 @@ class Stats:
 
     def merge(self, other):
         self.evaluations += other.evaluations
+        self.executions += other.executions
         self.labels.update(other.labels)
         self.nontrivial |= other.nontrivial
         self.known_hits.update(other.known_hits)
@@ -144,16 +153,16 @@ def _hyp_worker(args):
                   suppress_health_check=list(HealthCheck), print_blob=False)
         @given(prop.strategy(tier))
         def run(case):
-            # shrinking is bounded by wall-clock: once the budget is spent every case but
-            # the best failing one found so far passes at once, which ends the shrinker
+            # shrinking is bounded by wall-clock: once the budget is spent the run is
+            # abandoned (a BaseException goes through Hypothesis) and the smallest failing
+            # case seen so far is reported
             if failing and time.time() - failing['since'] > shrink_budget:
-                if case_digest(case) != failing['digest']:
-                    return
+                raise ShrinkTimeout()
             res = prop.evaluate(case)
             bad = stats.add(case, res, known_sigs)
             if bad:
                 failing.setdefault('since', time.time())
-                failing['case'] = case
+                failing['case'] = res.replay_case or case
                 failing['digest'] = case_digest(case)
                 failing['violations'] = [v.as_dict() for v in bad]
                 raise CaseFailed(bad[0].sig)
@@ -161,7 +170,7 @@ def _hyp_worker(args):
         try:
             run()
             failed = None
-        except CaseFailed:
+        except (CaseFailed, ShrinkTimeout):
             failed = dict(failing)
         return dict(ok=True, stats=stats, failed=failed)
     except BaseException:
@@ -179,7 +188,7 @@ def _sweep_worker(args):
             res = prop.evaluate(case)
             bad = stats.add(case, res, known_sigs)
             if bad and failed is None:
-                failed = dict(case=case, violations=[v.as_dict() for v in bad])
+                failed = dict(case=res.replay_case or case, violations=[v.as_dict() for v in bad])
         return dict(ok=True, stats=stats, failed=failed, name=name)
     except BaseException:
         return dict(ok=False, error=traceback.format_exc())
@@ -320,6 +329,7 @@ def run_property(prop_id, tier, seed, replay=None, jobs=None, out=sys.stdout):
     wall = time.time() - t0
     coverage = dict(
         evaluations=total.evaluations,
+        executions=total.executions,
         distinct_nontrivial=len(total.nontrivial),
         rule=prop.RULE,
         samples=total.samples[:3],
